@@ -151,7 +151,7 @@ pub fn run(tier: &str, seed: u64, out: &Path) -> i32 {
         clean.iter().map(|c| (*c).clone()).collect()
     } else {
         // all base cases + a seeded sample of the rest
-        let n = 15000usize;
+        let n = 80000usize;
         let mut v: Vec<Case> = clean.iter().filter(|c| c.id.ends_with("|base")).map(|c| (*c).clone()).collect();
         let rest: Vec<&&Case> = clean.iter().filter(|c| !c.id.ends_with("|base")).collect();
         for _ in 0..n.min(rest.len()) {
@@ -298,11 +298,14 @@ pub fn run(tier: &str, seed: u64, out: &Path) -> i32 {
         o.sample(json!({"case": c.id, "config": cfg_text(&c.cfg), "src_bytes": c.src.len()}));
     }
     o.exhaustive = tier == "thorough";
-    o.notes.push("universe = fixtures x {base, 7 widths, every option single, 3 name-seeded re-layouts}; thorough runs every element not listed dirty, quick runs every base element and a seeded sample of 15000 others; listed dirty elements run as probes. Boundary family: universe B = top-level items of the fixtures x every max_width 20..200 (measured in full on the pinned tree, dirty/slow elements in corpus/c02_boundary_dirty.txt); a run takes, per item, the widths within one column of the length of a line of the item's output at max_width 200 (quick: every such pair, about 20000, plus a seeded sample of 10000 other elements of B; thorough: the whole universe B, 540000 elements)".into());
+    o.notes.push("universe = fixtures x {base, 7 widths, every option single, 3 name-seeded re-layouts}; thorough runs every element not listed dirty, quick runs every base element and a seeded sample of 80000 others (with repetition: about 40% of the universe); listed dirty elements run as probes. Boundary family: universe B = top-level items of the fixtures x every max_width 20..200 (measured in full on the pinned tree, dirty/slow elements in corpus/c02_boundary_dirty.txt); a run takes, per item, the widths within one column of the length of a line of the item's output at max_width 200 (quick: every such pair, about 20000, plus a seeded sample of 10000 other elements of B; thorough: the whole universe B, 540000 elements)".into());
     // re-breaking of strings and comments is the identity on its own output (StringFmt model and oracles)
     {
         let mut r = Rng::new(seed ^ 0x1157);
         crate::strings_corr::cases_c02(&mut o, &mut r, tier == "thorough");
+        crate::missed_corr::cases_c02(&mut o, &mut r, tier == "thorough");
+        crate::vertical_corr::cases(&mut o, &mut r, tier == "thorough");
+        crate::budgets_corr::cases_c02(&mut o, &mut r, tier == "thorough");
     }
     o.finish(out, jobs_n())
 }
